@@ -32,6 +32,18 @@ Subset (anything else raises `TranslationError` naming function, line and constr
                naturals where the reviewed signature says so; int literals in scalar position = `ofNat n`; float literals =
                `ofNat n` when integral, else `flit mantissa decimals`.
 
+Round 4b additions (each listed with its Lean reading in design-notes/reports/T2-pybody.md, "## Round 4b"): nested `def`
+  with a reviewed signature; tuple unpacking (literal tuples, `a.transpose((2,0,1))`, `np.meshgrid`, `img.shape` of a 2-D
+  array, callees returning a pair / four naturals, `idx, = np.where(c)`); search loops (`return` inside `for`: the fold state
+  carries `Option <result>`); `for a, b in zip(..)`; `x.append(e)`; `slice(a, b)`; integer-array arithmetic; `assert`;
+  `type(x) == T` and `x.dtype is np.bool_` through reviewed primitives; string equality; module constants; kernels that fill an
+  argument (`Prim(mutates=i)`); callees that may raise (`Prim(raises=True)`: only `a, b = f(..)` and `return f(..)`); 2-D
+  window loads / stores; a LOCAL `out` array passed as `out=` is kept; comprehensions over `range(n)` / `zip(..)`; `**` through
+  the power primitive; `np.indices` as coordinate vectors; optional ints / pairs; reviewed SLICES of a body
+  (`Target.assume_none`, `Target.result_var`). Everything the value-level definitions drop (aliasing guards, `out=` plumbing,
+  guard helpers, identity casts, the tests resolved by a slice) is recorded as a comment in front of the definition and in
+  the table `<Cxx>.droppedGuards` at the end of each generated file.
+
 Trusted: this file (the meaning given to each Python construct above), the per-family primitive tables and the signatures in
 `TARGETS` (reviewed by hand, including the `while` bounds), numpy itself.
 """
@@ -45,19 +57,26 @@ LEAN_KEYWORDS = {'open', 'end', 'at', 'from', 'fun', 'let', 'have', 'show', 'in'
                  'match', 'where', 'instance', 'class', 'structure', 'def', 'theorem', 'example', 'local', 'private',
                  'variable', 'universe', 'namespace', 'section', 'import', 'export', 'mutual', 'macro', 'syntax', 'notation',
                  'prefix', 'infix', 'postfix', 'deriving', 'extends', 'for', 'unless', 'return', 'try', 'catch', 'finally',
-                 'using', 'calc', 'nomatch', 'Type', 'Prop', 'Sort', 'max', 'min', 'id', 'st', 'P', 'ofNat', 'ofInt', 'flit', 'K'}
+                 'using', 'calc', 'nomatch', 'Type', 'Prop', 'Sort', 'max', 'min', 'id', 'st', 'P', 'ofNat', 'ofInt', 'flit', 'K',
+                 'X', 'A', 'D', 'I', 'S', 'H', 'G', 'B', 'M', 'Sh'}     # the last row: type parameters of the families
 
 # sorts -> Lean types (inside a family whose header binds I S K)
 LEAN_TYPE = {'img': 'I', 'se': 'S', 'nat': 'Nat', 'int': 'Int', 'bool': 'Bool', 'K': 'K', 'vec': 'List K', 'mode': 'M',
              'arr': 'A', 'natlist': 'List Nat', 'intlist': 'List Int', 'fld': 'X → K', 'bfld': 'X → Bool',
              'hist': 'H', 'pimg': 'G', 'str': 'String', 'mat': 'List (List K)', 'bimg': 'B',
-             'optK': 'Option K', 'optD': 'Option D', 'dtype': 'D', 'shp': 'Sh'}
+             'optK': 'Option K', 'optD': 'Option D', 'dtype': 'D', 'shp': 'Sh',
+             'slice': 'Int × Int', 'slicelist': 'List (Int × Int)', 'shape_pos': 'List Int × List (Int × Int)'}
+LEAN_TYPE['fld1'] = 'Nat → K'
+LIST_ELEM = {'natlist': 'nat', 'intlist': 'int', 'vec': 'K', 'slicelist': 'slice'}
 
 # guard helpers whose calls (as expression statements) are dropped: translator/guards.py extracts them
 GUARD_CALLS = {'_verify_is_integer_type', '_verify_is_floatingpoint_type', '_verify_is_bool', '_verify_is_nonnegative',
                '_check_2', '_check_3', '_check_mode', '_check_interp'}
 PLUMBING = {'out', 'output'}           # destination-buffer names: never part of the value-level definition
 IDENTITY_METHODS = {'copy'}            # `x.copy()` = `x` at value level
+
+
+MUTATING = {}                          # callee -> index of the argument it writes (filled from the primitive tables)
 
 
 def lname(n: str) -> str:
@@ -85,20 +104,29 @@ class Prim:
     `args` = sorts of the kept positional arguments, in the Python order; `kw` = keyword name -> position (keywords that may
     be used instead of a position); positional arguments beyond `args` must be plumbing names or string constants."""
 
-    def __init__(self, field, args, ret, kw=None, doc='', elementwise=False, drop_kw=(), pos=None):
+    def __init__(self, field, args, ret, kw=None, doc='', elementwise=False, drop_kw=(), pos=None, raises=False, mutates=None):
+        self.mutates = mutates              # index of the (local array) argument the callee writes its result into, when called as a statement
         self.field, self.args, self.ret, self.kw, self.doc = field, list(args), ret, dict(kw or {}), doc
         self.pos = list(pos) if pos is not None else list(range(len(args)))   # Python positions of the kept arguments
         self.drop_kw = set(drop_kw)         # reviewed keywords without value-level meaning (dtype= of a conversion, copy=)
+        self.raises = raises                # the callee may raise: the field returns `Option`, only usable as `a, b = callee(..)`
         self.elementwise = elementwise      # a numpy ufunc of one argument: on a vector it is `List.map`
 
 
 class Target:
-    def __init__(self, module, name, params, ret, family, lean=None, drop=(), consts=None, only=None, fuels=()):
+    def __init__(self, module, name, params, ret, family, lean=None, drop=(), consts=None, only=None, fuels=(), locals=None, localsorts=None,
+                 fallthrough_none=False, raises=False, assume_none=(), result_var=None):
         self.module, self.name, self.params, self.ret, self.family = module, name, list(params), ret, family
         self.lean = lean or (module[:-3].replace('/', '_') + '_' + name)
         self.drop = set(drop)                   # parameters that are not value-level arguments (PLUMBING parameters are added)
         self.consts = dict(consts or {})        # module-level names readable in the body: name -> (lean text, sort)
         self.only = only
+        self.locals = dict(locals or {})        # reviewed signatures of nested `def`s: name -> ([parameter sorts], result sort)
+        self.localsorts = dict(localsorts or {})  # sort of a local that starts as the empty list `x = []`
+        self.fallthrough_none = fallthrough_none  # reviewed: falling off the end (Python returns None) makes every caller raise: `none`
+        self.assume_none = set(assume_none)    # reviewed slice: optional PARAMETERS taken to be None (`if p is None: A else: B` -> A)
+        self.result_var = result_var            # reviewed slice: the definition is the value of this local right after its first assignment
+        self.force_raises = raises              # the body calls a primitive that may raise
         self.fuels = list(fuels)                # reviewed iteration bounds of the `while` loops, in source order (Python expressions)
 
     @property
@@ -122,8 +150,15 @@ class Family:
                 continue
             seen.add(p.field)
             par = lambda t: f'({t})' if '→' in t else t
-            ty = ' → '.join([par(LEAN_TYPE[a]) for a in p.args] + [par(LEAN_TYPE[p.ret])])
+            ty = ' → '.join([par(LEAN_TYPE[a]) for a in p.args] + [f'Option ({LEAN_TYPE[p.ret]})' if p.raises else par(LEAN_TYPE[p.ret])])
             srcs = ', '.join(sorted(k for k, q in self.prims.items() if q.field == p.field))
+            if py == 'shape2':
+                out += [f'  /-- `r, c = a.shape` (rows) -/', f'  {p.field}_rows : {par(LEAN_TYPE[p.args[0]])} → Nat',
+                        f'  /-- `r, c = a.shape` (columns) -/', f'  {p.field}_cols : {par(LEAN_TYPE[p.args[0]])} → Nat']
+                continue
+            if py == 'np.meshgrid':
+                out += [f'  /-- `{srcs}` (first result) -/', f'  {p.field}_x : {ty}', f'  /-- `{srcs}` (second result) -/', f'  {p.field}_y : {ty}']
+                continue
             out.append(f'  /-- `{srcs}` -/')
             out.append(f'  {p.field} : {ty}')
         return out
@@ -139,7 +174,14 @@ class Tr:
         # destination-buffer names are plumbing only when they are PARAMETERS of this function
         self.drop = set(tgt.drop) | {a.arg for a in fdef.args.args if a.arg in PLUMBING}
         self.counter = 0
-        self.raises = any(isinstance(n, ast.Raise) for n in ast.walk(fdef))
+        self.raises = any(isinstance(n, (ast.Raise, ast.Assert)) for n in ast.walk(fdef)) or tgt.force_raises
+        self.notes = []                    # (kind, source text) of every construct dropped as a value-level no-op
+
+    def note(self, kind, node):
+        """record a construct that is dropped from the value-level definition, for the reviewer's table `droppedGuards`"""
+        src = ' '.join(ast.unparse(node).split())
+        if (kind, src) not in self.notes:
+            self.notes.append((kind, src))
 
     def err(self, node, what):
         line = getattr(node, 'lineno', '?')
@@ -158,8 +200,10 @@ class Tr:
     def coerce(self, txt, sort, want, node):
         if want is None or sort == want:
             return txt
-        if sort == 'none' and want in ('optK', 'optD'):
+        if sort == 'none' and want in ('optK', 'optD', 'optint', 'optpair'):
             return '(none)'
+        if want == 'optint' and sort in ('int', 'nat', 'natlit'):
+            return f'(some {self.coerce(txt, sort, "int", node)})'
         if (sort, want) in (('K', 'optK'), ('dtype', 'optD')):
             return f'(some {txt})'
         if sort == 'natlit':
@@ -229,6 +273,11 @@ class Tr:
                 if s == 'vec':
                     return f'(List.map (fun t => -t) {a})', 'vec'
                 raise self.err(node, f'unary minus on sort {s}')
+            if isinstance(node.op, ast.UAdd):
+                a, s = self._E(node.operand, env, want)
+                if s in ('K', 'int', 'nat', 'natlit'):
+                    return a, s
+                raise self.err(node, f'unary plus on sort {s}')
             if isinstance(node.op, ast.Not):
                 a = self.cond(node.operand, env)
                 return f'(!{a})', 'bool'
@@ -237,6 +286,9 @@ class Tr:
             return self.binop(node, env, want)
         if isinstance(node, ast.Compare):
             txt = self.compare(node, env)
+            for key, q in self.fam.prims.items():
+                if key.endswith('!=0') and txt.startswith(f'(P.{q.field} '):
+                    return txt, q.ret
             return txt, ('bfld' if txt.startswith('(fun p =>') else 'bool')
         if isinstance(node, ast.BoolOp):
             parts = [self.cond(v, env) for v in node.values]
@@ -251,10 +303,37 @@ class Tr:
             return f'(if {c} then {a} else {b})', sa
         if isinstance(node, ast.ListComp):
             if len(node.generators) != 1 or node.generators[0].ifs or node.generators[0].is_async \
-                    or not isinstance(node.generators[0].target, ast.Name):
+                    or not isinstance(node.generators[0].target, (ast.Name, ast.Tuple)):
                 raise self.err(node, 'list comprehension outside the subset')
+            g0 = node.generators[0]
+            if len(node.generators) == 1 and not g0.ifs and isinstance(g0.target, ast.Tuple) and len(g0.target.elts) == 2 \
+                    and all(isinstance(e, ast.Name) for e in g0.target.elts) and isinstance(g0.iter, ast.Call) \
+                    and dotted(g0.iter.func) == 'zip' and len(g0.iter.args) == 2 and not g0.iter.keywords:
+                # [e for a, b in zip(xs, ys)]
+                xs, sx = self._E(g0.iter.args[0], env)
+                ys, sy = self._E(g0.iter.args[1], env)
+                if f'elems:{sy}' in self.fam.prims:                 # a scalar-or-sequence argument iterated as its entries
+                    q = self.fam.prims[f'elems:{sy}']
+                    ys, sy = f'(P.{q.field} {ys})', q.ret
+                if sx not in LIST_ELEM or sy not in LIST_ELEM:
+                    raise self.err(node, f'zip over sorts {sx},{sy}')
+                env2 = dict(env)
+                env2[g0.target.elts[0].id], env2[g0.target.elts[1].id] = LIST_ELEM[sx], LIST_ELEM[sy]
+                body, sb = self._E(node.elt, env2)
+                back = {'nat': 'natlist', 'natlit': 'natlist', 'int': 'intlist', 'K': 'vec'}.get(sb)
+                if back is None:
+                    raise self.err(node, f'comprehension yields sort {sb}')
+                zz = self.fresh('zz')
+                return (f'(List.map (fun {zz} => let {lname(g0.target.elts[0].id)} := {zz}.1; let {lname(g0.target.elts[1].id)} := {zz}.2; '
+                        f'{body}) (List.zip {xs} {ys}))'), back
             g = node.generators[0]
-            seq, ss = self._E(g.iter, env)
+            if not isinstance(g.target, ast.Name):
+                raise self.err(node, 'list comprehension outside the subset')
+            if isinstance(g.iter, ast.Call) and dotted(g.iter.func) == 'range' and len(g.iter.args) == 1 and not g.iter.keywords:
+                n_, _ = self.E(g.iter.args[0], env, 'nat')
+                seq, ss = f'(List.range {n_})', 'natlist'
+            else:
+                seq, ss = self._E(g.iter, env)
             elem = {'natlist': 'nat', 'intlist': 'int', 'vec': 'K'}.get(ss)
             if elem is None:
                 raise self.err(node, f'comprehension over sort {ss}')
@@ -265,6 +344,12 @@ class Tr:
             if back is None:
                 raise self.err(node, f'comprehension yields sort {sb}')
             return f'(List.map (fun {lname(g.target.id)} => {body}) {seq})', back
+        if isinstance(node, ast.Tuple) and len(node.elts) == 2:
+            a, sa = self._E(node.elts[0], env)
+            b, sb = self._E(node.elts[1], env)
+            if (sa, sb) == ('intlist', 'slicelist'):
+                return f'({a}, {b})', 'shape_pos'
+            raise self.err(node, f'tuple of sorts {sa},{sb}')
         if isinstance(node, ast.Call):
             return self.call(node, env, want)
         if isinstance(node, ast.Subscript):
@@ -300,17 +385,67 @@ class Tr:
 
     def binop(self, node, env, want):
         op = type(node.op)
+        if op is ast.Pow and isinstance(node.left, ast.Constant) and isinstance(node.left.value, int) \
+                and not isinstance(node.left.value, bool):
+            e, se = self._E(node.right, env)
+            if se == 'natlit':
+                return f'({node.left.value} ^ {e})', 'natlit'
+            if se == 'intlist':                     # `2 ** v` of an array of integral values: elementwise
+                return f'(List.map (fun e => ({node.left.value} : Int) ^ (Int.toNat e)) {e})', 'intlist'
+        if op in (ast.Add, ast.Sub, ast.FloorDiv) and not isinstance(node.left, ast.Constant):
+            a, sa = self._E(node.left, env)
+            if sa == 'intlist':                     # integer arrays: elementwise with a scalar / with an array of the same length
+                b, sb = self._E(node.right, env)
+                sym = {ast.Add: '+', ast.Sub: '-'}.get(op)
+                if sb == 'intlist' and sym:
+                    return f'(List.zipWith (fun a b => a {sym} b) {a} {b})', 'intlist'
+                if sb in ('nat', 'int', 'natlit'):
+                    b = self.coerce(b, sb, 'int', node) if sb != 'natlit' else f'({b} : Int)'
+                    if sym:
+                        return f'(List.map (fun t => t {sym} {b}) {a})', 'intlist'
+                    return f'(List.map (fun t => Int.fdiv t {b}) {a})', 'intlist'
+                raise self.err(node, f'arithmetic on sorts {sa},{sb}')
+        if op in (ast.Sub, ast.Pow) and not isinstance(node.left, ast.Constant):
+            a, sa = self._E(node.left, env)
+            if sa == 'vfld':                        # an array of coordinate vectors (np.indices): elementwise
+                if op is ast.Pow and isinstance(node.right, ast.Constant) and node.right.value == 2:
+                    return f'(fun p => List.map (fun t => t * t) ({a} p))', 'vfld'
+                if op is ast.Sub:
+                    b, sb = self._E(node.right, env)
+                    if sb in ('nat', 'int', 'natlit', 'K'):
+                        return f'(fun p => List.map (fun t => t - {self.coerce(b, sb, "K", node)}) ({a} p))', 'vfld'
+                raise self.err(node, f'operator on an index array outside the subset')
+        if op is ast.Pow and not isinstance(node.left, ast.Constant) and not isinstance(node.right, ast.Constant):
+            a, sa = self._E(node.left, env)
+            e, se = self._E(node.right, env)
+            if sa == 'vec' and se == 'nat':             # elementwise power with a natural exponent: prelude `pyPowN` (repeated product)
+                return f'(List.map (fun t => pyPowN (ofNat 1) t {e}) {a})', 'vec'
         if op is ast.Pow:
             if isinstance(node.right, ast.Constant) and node.right.value == 2:
                 a, s = self._E(node.left, env, want)
                 if s in ('K', 'int', 'nat'):
                     return f'({a} * {a})', s
+                if s == 'fld':
+                    return f'(fun p => ({a} p) * ({a} p))', 'fld'
+            if 'np.power' in self.fam.prims:
+                # `x ** e` through the reviewed power primitive: elementwise on an array seen pointwise; an int exponent is embedded
+                a, sa = self._E(node.left, env)
+                e, se = self._E(node.right, env)
+                if se in ('natlit', 'nat', 'int', 'K') and sa in ('K', 'fld'):
+                    e = self.coerce(e, se, 'K', node)
+                    pw = self.fam.prims['np.power'].field
+                    if sa == 'K':
+                        return f'(P.{pw} {a} {e})', 'K'
+                    return f'(fun p => P.{pw} ({a} p) {e})', 'fld'
             raise self.err(node, 'power other than **2')
         if op in (ast.BitOr, ast.BitAnd):
             # `|` / `&` of Boolean masks (elementwise) or of two bools
             a, sa = self._E(node.left, env)
             b, sb = self._E(node.right, env)
             sym = '||' if op is ast.BitOr else '&&'
+            if f'{sa}{"|" if op is ast.BitOr else "&"}{sb}' in self.fam.prims:
+                p = self.fam.prims[f'{sa}{"|" if op is ast.BitOr else "&"}{sb}']
+                return f'(P.{p.field} {a} {b})', p.ret
             if sa == 'bool' and sb == 'bool':
                 return f'({a} {sym} {b})', 'bool'
             if {sa, sb} <= {'bool', 'bfld'}:
@@ -343,7 +478,7 @@ class Tr:
             if op is ast.Div:
                 raise self.err(node, 'true division of two int literals')
             return f'({a} {sym} {b})', 'natlit'
-        rank = {'natlit': 0, 'bool': 0, 'nat': 1, 'int': 2, 'K': 3, 'vec': 4, 'fld': 4, 'bfld': 4}
+        rank = {'natlit': 0, 'bool': 0, 'nat': 1, 'int': 2, 'K': 3, 'vec': 4, 'fld': 4, 'bfld': 4, 'natlist': 4}
         if sa not in rank or sb not in rank or ('vec' in (sa, sb) and ({sa, sb} & {'fld', 'bfld'})):
             raise self.err(node, f'arithmetic on sorts {sa},{sb}')
         if op is ast.Div and rank[sa] < 3 and rank[sb] < 3:
@@ -362,6 +497,8 @@ class Tr:
                     return f'(if {x} p then ofNat 1 else ofNat 0)'
                 return self.coerce(x, sx, 'K', node)
             return f'(fun p => {pw(a, sa)} {sym} {pw(b, sb)})', 'fld'
+        if sa == 'vec' and sb == 'natlist':             # a float array and a shape of the same length: elementwise
+            return f'(List.zipWith (fun a b => a {sym} (ofNat b)) {a} {b})', 'vec'
         if tgt == 'vec':
             if sa == 'vec' and sb == 'vec':
                 return f'(List.zipWith (fun a b => a {sym} b) {a} {b})', 'vec'
@@ -388,8 +525,37 @@ class Tr:
                 p = self.fam.prims[key]
                 a, _ = self.E(ast.copy_location(ast.Name(id=root, ctx=ast.Load()), node), env, p.args[0])
                 return f'(P.{p.field} {a} "{r.value}")'
+        if op is ast.Eq and isinstance(l, ast.Call) and dotted(l.func) == 'type' and len(l.args) == 1 and not l.keywords \
+                and isinstance(r, ast.Name):
+            # dispatch on the Python type of an argument: reviewed primitives of the argument's sum sort
+            x = l.args[0]
+            if isinstance(x, ast.Subscript) and isinstance(x.slice, ast.Constant) and x.slice.value == 0 \
+                    and f'type([0])=={r.id}' in self.fam.prims:
+                p = self.fam.prims[f'type([0])=={r.id}']
+                a, _ = self.E(x.value, env, p.args[0])
+                return f'(P.{p.field} {a})'
+            if f'type=={r.id}' in self.fam.prims:
+                p = self.fam.prims[f'type=={r.id}']
+                a, _ = self.E(x, env, p.args[0])
+                return f'(P.{p.field} {a})'
+            raise self.err(node, 'type test without a reviewed primitive')
+        if op in (ast.Is, ast.IsNot) and isinstance(l, ast.Attribute) and l.attr == 'dtype' and dotted(r) == 'np.bool_' \
+                and '.dtype is np.bool_' in self.fam.prims:
+            p = self.fam.prims['.dtype is np.bool_']
+            a, _ = self.E(l.value, env, p.args[0])
+            return f'(P.{p.field} {a})' if op is ast.Is else f'(!(P.{p.field} {a}))'
         if op in (ast.Is, ast.IsNot):
             raise self.err(node, '`is` test (default-argument handling must be listed in the signature)')
+        if op in (ast.Eq, ast.NotEq):
+            a0, s0 = self._E(l, env)
+            b0, s1 = self._E(r, env)
+            if s0 == 'str' and s1 == 'str':
+                return f'(decide ({a0} {self.CMP[op]} {b0}))'
+            if f'{s0}{"!=" if op is ast.NotEq else "=="}{s1}' in self.fam.prims:
+                return f'(P.{self.fam.prims[s0 + ("!=" if op is ast.NotEq else "==") + s1].field} {a0} {b0})'
+            if op is ast.NotEq and f'{s0}!=0' in self.fam.prims and isinstance(r, ast.Constant) and r.value == 0 \
+                    and not isinstance(r.value, bool):
+                return f'(P.{self.fam.prims[s0 + "!=0"].field} {a0})'
         if op not in self.CMP:
             raise self.err(node, 'comparison outside the subset')
         a, sa = self._E(l, env)
@@ -418,12 +584,28 @@ class Tr:
             if s != 'vec':
                 raise self.err(node, f'[::-1] on sort {s}')
             return f'(List.reverse {a})', 'vec'
+        if isinstance(sl, ast.Constant) and sl.value in (0, 1) and not isinstance(sl.value, bool):
+            a0, s0 = self._E(node.value, env)
+            if s0 == 'pair':
+                return f'({a0}.{sl.value + 1})', 'K'
+        w = self._window(sl, env)
+        if w is not None and 'getwin' in self.fam.prims:
+            p = self.fam.prims['getwin']
+            a, _ = self.E(node.value, env, p.args[0])
+            return '(' + ' '.join([f'P.{p.field}', a] + w) + ')', p.ret
         if '[]' in self.fam.prims:
             p = self.fam.prims['[]']
             a, _ = self.E(node.value, env, p.args[0])
             i, _ = self.E(sl, env, p.args[1])
             return f'(P.{p.field} {a} {i})', p.ret
         raise self.err(node, 'subscript outside the subset')
+
+    def _window(self, sl, env):
+        """`[a:b, c:d]` (two plain slices with both ends given) -> the four bounds as Int terms"""
+        if isinstance(sl, ast.Tuple) and len(sl.elts) == 2 and all(
+                isinstance(e, ast.Slice) and e.lower is not None and e.upper is not None and e.step is None for e in sl.elts):
+            return [self.E(x, env, 'int')[0] for e in sl.elts for x in (e.lower, e.upper)]
+        return None
 
     def _idiom(self, node, env):
         """reviewed multi-node idioms"""
@@ -454,9 +636,11 @@ class Tr:
             if s == 'vec':
                 return f'(List.foldl (fun a b => a + b) 0 {a})', 'K'
         # builtin max / min of two scalars: Python returns the FIRST argument unless the second is strictly larger / smaller
-        if d in ('max', 'min') and len(node.args) == 2 and not node.keywords and 'K' in self.fam.tparams:
+        if d in ('max', 'min') and len(node.args) == 2 and not node.keywords:
             a, sa = self._E(node.args[0], env)
             b, sb = self._E(node.args[1], env)
+            if 'K' not in self.fam.tparams and not {sa, sb} <= {'int', 'nat', 'natlit'}:
+                raise self.err(node, f'{d} on sorts {sa},{sb}')
             tgt = 'K' if 'K' in (sa, sb) else ('int' if {sa, sb} <= {'int', 'nat', 'natlit'} else 'K')
             a, b = self.coerce(a, sa, tgt, node), self.coerce(b, sb, tgt, node)
             if tgt == 'int':
@@ -468,6 +652,33 @@ class Tr:
                 and node.args[0].elts and all(isinstance(r, ast.List) for r in node.args[0].elts):
             rows = ['[' + ', '.join(self.E(e, env, 'K')[0] for e in r.elts) + ']' for r in node.args[0].elts]
             return '[' + ', '.join(rows) + ']', 'mat'
+        # np.array(shape, dtype=float): the sizes as floats
+        if d == 'np.array' and len(node.args) == 1 and [k.arg for k in node.keywords] == ['dtype'] \
+                and dotted(node.keywords[0].value) == 'float' and 'K' in self.fam.tparams and 'np.array' not in self.fam.prims:
+            a, sa = self._E(node.args[0], env)
+            if sa == 'natlist':
+                return f'(List.map ofNat {a})', 'vec'
+            if f'np.array(float):{sa}' in self.fam.prims:
+                q = self.fam.prims[f'np.array(float):{sa}']
+                return f'(P.{q.field} {a})', q.ret
+        # np.array([a, b, c]) of scalars: the vector
+        if d == 'np.array' and len(node.args) == 1 and not node.keywords and isinstance(node.args[0], ast.List) \
+                and node.args[0].elts and not any(isinstance(r, (ast.List, ast.Tuple)) for r in node.args[0].elts) \
+                and 'K' in self.fam.tparams:
+            return '[' + ', '.join(self.E(e, env, 'K')[0] for e in node.args[0].elts) + ']', 'vec'
+        # np.dstack([a, b, c]) of three planes: a reviewed primitive
+        if d == 'np.dstack' and len(node.args) == 1 and not node.keywords and isinstance(node.args[0], ast.List) \
+                and len(node.args[0].elts) == 3 and 'np.dstack3' in self.fam.prims:
+            p = self.fam.prims['np.dstack3']
+            parts = [self.E(e, env, so)[0] for e, so in zip(node.args[0].elts, p.args)]
+            return '(' + ' '.join([f'P.{p.field}'] + parts) + ')', p.ret
+        # np.maximum(array, scalar) pointwise: the larger of the two (the scalar when the element is strictly smaller)
+        if d == 'np.maximum' and len(node.args) == 2 and not [k for k in node.keywords if k.arg != 'out'] and 'K' in self.fam.tparams:
+            a, sa = self._E(node.args[0], env)
+            b, sb = self._E(node.args[1], env)
+            if sa == 'fld' and sb in ('K', 'nat', 'int', 'natlit'):
+                b = self.coerce(b, sb, 'K', node)
+                return f'(fun p => if ({a} p) < {b} then {b} else ({a} p))', 'fld'
         # np.minimum(array, scalar) pointwise: the smaller of the two (the scalar when it is strictly smaller)
         if d == 'np.minimum' and len(node.args) == 2 and not [k for k in node.keywords if k.arg != 'out'] and 'K' in self.fam.tparams:
             a, sa = self._E(node.args[0], env)
@@ -475,9 +686,91 @@ class Tr:
             if sa == 'fld' and sb in ('K', 'nat', 'int', 'natlit'):
                 b = self.coerce(b, sb, 'K', node)
                 return f'(fun p => if {b} < ({a} p) then {b} else ({a} p))', 'fld'
+        src = ast.unparse(node).replace(' ', '')
+        # np.all((f == 0) | (f == 1)): every element is 0 or 1
+        m = re.fullmatch(r'np\.all\(\((\w+)==0\)\|\((\w+)==1\)\)', src)
+        if m and m.group(1) == m.group(2) and m.group(1) in env and 'np.all(0|1)' in self.fam.prims:
+            p = self.fam.prims['np.all(0|1)']
+            a, _ = self.E(ast.copy_location(ast.Name(id=m.group(1), ctx=ast.Load()), node), env, p.args[0])
+            return f'(P.{p.field} {a})', p.ret
+        # np.pad(f, ((0, 1), (0, 1)), mode='constant'): one background row below, one background column to the right
+        if d == 'np.pad' and len(node.args) == 2 and ast.unparse(node.args[1]).replace(' ', '') == '((0,1),(0,1))' \
+                and [(k.arg, getattr(k.value, 'value', None)) for k in node.keywords] == [('mode', 'constant')] \
+                and 'np.pad01' in self.fam.prims:
+            p = self.fam.prims['np.pad01']
+            a, _ = self.E(node.args[0], env, p.args[0])
+            return f'(P.{p.field} {a})', p.ret
+        # x.astype(c.dtype, copy=False) with c a reviewed module constant: conversion to the dtype of c
+        if isinstance(node.func, ast.Attribute) and node.func.attr == 'astype' and len(node.args) == 1 \
+                and isinstance(node.args[0], ast.Attribute) and node.args[0].attr == 'dtype' \
+                and isinstance(node.args[0].value, ast.Name) and node.args[0].value.id in self.t.consts \
+                and all(k.arg == 'copy' for k in node.keywords) and '.astype(like)' in self.fam.prims:
+            p = self.fam.prims['.astype(like)']
+            a, _ = self.E(node.func.value, env, p.args[0])
+            c, _ = self.E(node.args[0].value, env, p.args[1])
+            return f'(P.{p.field} {a} {c})', p.ret
+        # table[values].sum(): the sum of the table entries selected by an integer image
+        if isinstance(node.func, ast.Attribute) and node.func.attr == 'sum' and not node.args and not node.keywords \
+                and isinstance(node.func.value, ast.Subscript) and '[].sum()' in self.fam.prims:
+            p = self.fam.prims['[].sum()']
+            a, _ = self.E(node.func.value.value, env, p.args[0])
+            i, _ = self.E(node.func.value.slice, env, p.args[1])
+            return f'(P.{p.field} {a} {i})', p.ret
+        if isinstance(node.func, ast.Attribute) and node.func.attr == 'sum' and len(node.args) == 1 and not node.keywords \
+                and isinstance(node.args[0], ast.Constant) and node.args[0].value == 0 and isinstance(node.func.value, ast.Name) \
+                and env.get(node.func.value.id) == 'vfld':
+            a = lname(node.func.value.id)          # `indices.sum(0)`: the sum over the leading (coordinate) axis, per position
+            return f'(fun p => List.foldl (fun a b => a + b) (ofNat 0) ({a} p))', 'fld'
+        if d in ('np.zeros', 'np.empty') and len(node.args) == 2 and not node.keywords and isinstance(node.args[0], ast.Tuple) \
+                and len(node.args[0].elts) == 2 and d + '2' in self.fam.prims:
+            p = self.fam.prims[d + '2']
+            parts = [self.E(e, env, 'int')[0] for e in node.args[0].elts] + [self.E(node.args[1], env, p.args[2])[0]]
+            return '(' + ' '.join([f'P.{p.field}'] + parts) + ')', p.ret
+        if d == 'int' and len(node.args) == 1 and not node.keywords and 'int' not in self.fam.prims:
+            a, sa = self._E(node.args[0], env)
+            if sa in ('int', 'nat'):
+                return a, sa                           # int(x) of a Python int
+        if d == 'np.array' and len(node.args) == 1 and not node.keywords and isinstance(node.args[0], ast.BinOp) \
+                and isinstance(node.args[0].op, ast.Mult) and isinstance(node.args[0].left, ast.List) \
+                and len(node.args[0].left.elts) == 1 and 'np.array([x]*n)' in self.fam.prims:
+            p = self.fam.prims['np.array([x]*n)']
+            a, _ = self.E(node.args[0].left.elts[0], env, p.args[0])
+            n, _ = self.E(node.args[0].right, env, p.args[1])
+            return f'(P.{p.field} {a} {n})', p.ret
+        if d == 'np.dot' and len(node.args) == 2 and not node.keywords and 'np.dot' not in self.fam.prims:
+            a, sa = self._E(node.args[0], env)
+            b, sb = self._E(node.args[1], env)
+            if f'np.dot:{sa},{sb}' in self.fam.prims:
+                p = self.fam.prims[f'np.dot:{sa},{sb}']
+                return f'(P.{p.field} {a} {b})', p.ret
+            raise self.err(node, f'np.dot on sorts {sa},{sb}')
+        if isinstance(node.func, ast.Attribute) and node.func.attr == 'sum' and not node.args and not node.keywords \
+                and isinstance(node.func.value, ast.Name) and env.get(node.func.value.id) == 'vec':
+            return f'(List.foldl (fun a b => a + b) (ofNat 0) {lname(node.func.value.id)})', 'K'
+        if d == 'len' and len(node.args) == 1 and not node.keywords:
+            a, sa = self._E(node.args[0], env)
+            if f'len:{sa}' in self.fam.prims:
+                return f'(P.{self.fam.prims["len:" + sa].field} {a})', 'nat'
+            if sa in LIST_ELEM:
+                return f'(List.length {a})', 'nat'
+        if d == 'np.min' and len(node.args) == 1 and not node.keywords:
+            a, sa = self._E(node.args[0], env)
+            if sa == 'intlist':
+                return f'(listMinI {a})', 'int'    # prelude; numpy raises on an empty array: reviewed call sites test the length first
+        if d == 'np.floor' and len(node.args) == 1 and not node.keywords and isinstance(node.args[0], ast.Call) \
+                and dotted(node.args[0].func) == 'np.log2' and len(node.args[0].args) == 1 and not node.args[0].keywords \
+                and 'np.floor(np.log2)' in self.fam.prims:
+            p = self.fam.prims['np.floor(np.log2)']
+            a, sa = self._E(node.args[0].args[0], env)
+            if sa == 'intlist':
+                return f'(List.map P.{p.field} {a})', 'intlist'
+        if d == 'slice' and len(node.args) == 2 and not node.keywords:
+            a, _ = self.E(node.args[0], env, 'int')
+            b, _ = self.E(node.args[1], env, 'int')
+            return f'({a}, {b})', 'slice'
         if d == 'tuple' and len(node.args) == 1 and not node.keywords:
             a, sa = self._E(node.args[0], env)
-            if sa in ('natlist', 'intlist'):
+            if sa in ('natlist', 'intlist', 'slicelist'):
                 return a, sa                           # a tuple of indices is its list
         if d == 'float' and len(node.args) == 1 and not node.keywords and 'K' in self.fam.tparams:
             a, s = self._E(node.args[0], env)
@@ -494,9 +787,33 @@ class Tr:
         # x.copy()
         if isinstance(node.func, ast.Attribute) and node.func.attr in IDENTITY_METHODS and not node.args and not node.keywords:
             return self._E(node.func.value, env, want)
+        if isinstance(node.func, ast.Attribute) and node.func.attr == 'astype' and len(node.args) == 1 \
+                and dotted(node.args[0]) == 'int' and all(k.arg == 'copy' for k in node.keywords):
+            a, sa = self._E(node.func.value, env)
+            if sa == 'intlist':                     # an array of integral floats converted to int: the same integers
+                self.note('identity-cast', node)
+                return a, sa
         d = dotted(node.func)
         recv = None
-        if d is None or d not in self.fam.prims:
+        if d in env and env[d].startswith('fn:'):
+            # call of a nested `def` (reviewed signature in Target.locals)
+            psorts, rsort = self.t.locals[d]
+            if node.keywords or len(node.args) != len(psorts):
+                raise self.err(node, f'call of the local function {d} does not fit its reviewed signature')
+            parts = [self.E(a, env, so)[0] for a, so in zip(node.args, psorts)]
+            return '(' + ' '.join([lname(d)] + parts) + ')', rsort
+        if (d is None or d not in self.fam.prims) and isinstance(node.func, ast.Attribute) \
+                and ('.' + node.func.attr + '()') not in self.fam.prims and not (d and d.split('.')[0] not in env):
+            # the same method of receivers of different sorts: `.m():<sort>`
+            try:
+                _, rs = self._E(node.func.value, env)
+            except TranslationError:
+                rs = None
+            if f'.{node.func.attr}():{rs}' in self.fam.prims:
+                d, recv = f'.{node.func.attr}():{rs}', node.func.value
+        if recv is not None:
+            pass
+        elif d is None or d not in self.fam.prims:
             # method call on a value: `.m` primitives take the receiver first
             chain = d.split('.', 1) if d else None
             if isinstance(node.func, ast.Attribute) and ('.' + node.func.attr + '()') in self.fam.prims:
@@ -505,7 +822,18 @@ class Tr:
                 d, recv = '.' + chain[1] + '()', ast.copy_location(ast.Name(id=chain[0], ctx=ast.Load()), node)
             else:
                 raise self.err(node, f'call of {d or "<expr>"} is not in the primitive table of family {self.fam.name}')
+        if d and node.args and any(k.startswith(d + ':') for k in self.fam.prims):
+            try:
+                _, s0 = self._E(node.args[0], env)
+            except TranslationError:
+                s0 = None
+            if f'{d}:{s0}' in self.fam.prims:
+                d = f'{d}:{s0}'                          # the same callee on a first argument of another sort: its own reviewed signature
+        if d and d + '(out)' in self.fam.prims and any(k.arg == 'out' for k in node.keywords):
+            d = d + '(out)'                              # the same callee with / without a destination array: two reviewed signatures
         p = self.fam.prims[d]
+        if p.raises and not getattr(self, '_allow_raising', False):
+            raise self.err(node, f'{d} may raise: only `a, b = {d}(..)` as a statement is in the subset')
         pos = ([recv] if recv is not None else []) + list(node.args)
         slots = [None] * len(p.args)
         for i, a in enumerate(pos):
@@ -516,7 +844,14 @@ class Tr:
             else:
                 raise self.err(node, f'extra positional argument {i} of {d}')
         for k in node.keywords:
+            if k.arg in p.kw and not (isinstance(k.value, ast.Name) and k.value.id in self.drop):
+                if slots[p.kw[k.arg]] is not None:
+                    raise self.err(node, f'argument {k.arg} given twice')
+                slots[p.kw[k.arg]] = k.value
+                continue
             if k.arg in PLUMBING or k.arg in p.drop_kw:
+                if k.arg in PLUMBING:
+                    self.note('destination-buffer', ast.copy_location(ast.Name(id=f'{k.arg}={ast.unparse(k.value)} in {d}(..)', ctx=ast.Load()), node))
                 continue
             if k.arg in p.kw:
                 if slots[p.kw[k.arg]] is not None:
@@ -557,6 +892,12 @@ class Tr:
                     tg = [n.target]
                 elif isinstance(n, ast.Expr) and isinstance(n.value, ast.Call):
                     tg = [kw.value for kw in n.value.keywords if kw.arg == 'out' and isinstance(kw.value, ast.Name)]
+                    if dotted(n.value.func) in MUTATING:
+                        i = MUTATING[dotted(n.value.func)]
+                        if len(n.value.args) > i:
+                            tg = tg + [n.value.args[i]]
+                    if isinstance(n.value.func, ast.Attribute) and n.value.func.attr == 'append' and isinstance(n.value.func.value, ast.Name):
+                        tg = tg + [n.value.func.value]
                 for t in tg:
                     while isinstance(t, ast.Subscript):
                         t = t.value
@@ -569,7 +910,7 @@ class Tr:
         """does the block contain a return / raise / break / continue (not counting nested loops for break/continue)?"""
         def walk(ss, inloop):
             for s in ss:
-                if isinstance(s, (ast.Return, ast.Raise)):
+                if isinstance(s, (ast.Return, ast.Raise, ast.Assert)):
                     return True
                 if isinstance(s, (ast.Break, ast.Continue)) and not inloop:
                     return True
@@ -596,6 +937,8 @@ class Tr:
         pad = '  ' * ind
         if not stmts:
             if k is None:
+                if self.t.fallthrough_none and self.raises and getattr(self, '_ret', None) is None:
+                    return [pad + 'none']
                 raise TranslationError(f'{self.t.module}:{self.t.name}: a path falls off the end of the body without `return`')
             return k(env, ind)
         s, rest = stmts[0], stmts[1:]
@@ -603,7 +946,24 @@ class Tr:
             if isinstance(s.value, ast.Constant) and isinstance(s.value.value, str):
                 return self.S(rest, env, k, ind)                        # docstring
             if isinstance(s.value, ast.Call) and (dotted(s.value.func) or '').split('.')[-1] in GUARD_CALLS:
+                self.note('guard-helper', s)
                 return self.S(rest, env, k, ind)                        # guard helper: translator/guards.py
+            if isinstance(s.value, ast.Call) and isinstance(s.value.func, ast.Attribute) and s.value.func.attr == 'append' \
+                    and isinstance(s.value.func.value, ast.Name) and env.get(s.value.func.value.id) in LIST_ELEM \
+                    and len(s.value.args) == 1 and not s.value.keywords:
+                x = s.value.func.value.id                                   # `x.append(e)`: `x = x + [e]`
+                e, _ = self.E(s.value.args[0], env, LIST_ELEM[env[x]])
+                return [pad + f'let {lname(x)} := {lname(x)} ++ [{e}]'] + self.S(rest, env, k, ind)
+            if isinstance(s.value, ast.Call) and dotted(s.value.func) in self.fam.prims \
+                    and self.fam.prims[dotted(s.value.func)].mutates is not None and not s.value.keywords:
+                # `kernel(a, b, output)` as a statement: the kernel fills its argument `output` (a local array)
+                p = self.fam.prims[dotted(s.value.func)]
+                tgt = s.value.args[p.pos.index(p.mutates)] if p.mutates in p.pos and len(s.value.args) > p.pos.index(p.mutates) else None
+                if not (isinstance(tgt, ast.Name) and tgt.id in env and tgt.id not in self.drop and env[tgt.id] == p.ret):
+                    raise self.err(s, 'kernel call whose written argument is not a local array of the result sort')
+                asg = ast.Assign(targets=[ast.Name(id=tgt.id, ctx=ast.Store())], value=s.value)
+                ast.copy_location(asg, s); ast.fix_missing_locations(asg)
+                return self.S([asg] + list(rest), env, k, ind)
             if isinstance(s.value, ast.Call):
                 outs = [kw for kw in s.value.keywords if kw.arg == 'out']
                 if len(outs) == 1 and isinstance(outs[0].value, ast.Name) and outs[0].value.id in env \
@@ -616,12 +976,33 @@ class Tr:
             raise self.err(s, 'expression statement outside the subset')
         if isinstance(s, (ast.Pass, ast.Import, ast.ImportFrom)):
             return self.S(rest, env, k, ind)
+        if isinstance(s, ast.Assert):
+            # `assert c, msg`: AssertionError when c is false (python -O is not modelled)
+            if getattr(self, '_inloop', 0) or getattr(self, '_ret', None):
+                raise self.err(s, '`assert` inside a loop / nested def')
+            c = self.cond(s.test, env)
+            return [pad + f'if {c} then'] + self.S(rest, env, k, ind + 1) + [pad + 'else', pad + '  none']
         if isinstance(s, ast.Return):
             if s.value is None:
                 raise self.err(s, 'bare return')
             if getattr(self, '_inloop', 0):
-                raise self.err(s, '`return` inside a loop')
-            txt, _ = self.E(s.value, env, self.t.ret)
+                if not self._loops[-1].get('ret') or getattr(self, '_ret', None):
+                    raise self.err(s, '`return` inside a loop that is not a reviewed search loop')
+                txt, _ = self.E(s.value, env, self.t.ret)
+                return self._loop_exit(env, ind, False, ret=txt)
+            if isinstance(s.value, ast.Call) and self.raises and not getattr(self, '_ret', None):
+                dd = dotted(s.value.func)
+                if dd and dd + '(out)' in self.fam.prims and any(kk.arg == 'out' for kk in s.value.keywords):
+                    dd = dd + '(out)'
+                if dd in self.fam.prims and self.fam.prims[dd].raises:
+                    # `return callee(..)` of a callee that may raise: its `Option` is the result
+                    self._allow_raising = True
+                    try:
+                        txt, _ = self.E(s.value, env, self.t.ret)
+                    finally:
+                        self._allow_raising = False
+                    return [pad + txt]
+            txt, _ = self.E(s.value, env, getattr(self, '_ret', None) or self.t.ret)
             return [pad + (f'some {txt}' if self.raises else txt)]
         if isinstance(s, ast.Raise):
             if getattr(self, '_inloop', 0):
@@ -631,6 +1012,106 @@ class Tr:
             if not getattr(self, '_inloop', 0):
                 raise self.err(s, 'break/continue outside a loop')
             return self._loop_exit(env, ind, isinstance(s, ast.Break))
+        if isinstance(s, ast.FunctionDef):
+            # nested `def` with a reviewed signature: a local function `let f := fun (x : T) => body`
+            sig = self.t.locals.get(s.name)
+            a = s.args
+            if sig is None or a.vararg or a.kwarg or a.kwonlyargs or a.defaults or len(a.args) != len(sig[0]) or s.decorator_list:
+                raise self.err(s, f'nested def {s.name} without a matching reviewed signature (Target.locals)')
+            if any(isinstance(n, (ast.Raise, ast.FunctionDef)) for n in ast.walk(s) if n is not s) or getattr(self, '_inloop', 0):
+                raise self.err(s, 'nested def with raise / def inside, or inside a loop')
+            env_in = dict(env)
+            for x, so in zip(a.args, sig[0]):
+                env_in[x.arg] = so
+            saved = (getattr(self, '_ret', None), self.raises)
+            self._ret, self.raises = sig[1], False
+            try:
+                body = self.S(list(s.body), env_in, None, ind + 2)
+            finally:
+                self._ret, self.raises = saved
+            bind = ' '.join(f'({lname(x.arg)} : {LEAN_TYPE[so]})' for x, so in zip(a.args, sig[0]))
+            env2 = dict(env)
+            env2[s.name] = 'fn:' + s.name
+            return [pad + f'let {lname(s.name)} := (fun {bind} =>'] + body + [pad + '  )'] + self.S(rest, env2, k, ind)
+        if isinstance(s, ast.Assign) and len(s.targets) == 1 and isinstance(s.targets[0], ast.Tuple) \
+                and len(s.targets[0].elts) == 1 and isinstance(s.targets[0].elts[0], ast.Name) and isinstance(s.value, ast.Call) \
+                and dotted(s.value.func) == 'np.where' and len(s.value.args) == 1 and 'np.where' in self.fam.prims:
+            # `idx, = np.where(c)`: the indices of the non-zero entries of a 1-D array
+            asg = ast.Assign(targets=[s.targets[0].elts[0]], value=s.value)
+            ast.copy_location(asg, s); ast.fix_missing_locations(asg)
+            return self.S([asg] + list(rest), env, k, ind)
+        if isinstance(s, ast.Assign) and len(s.targets) == 1 and isinstance(s.targets[0], ast.Tuple) \
+                and all(isinstance(e, ast.Name) for e in s.targets[0].elts):
+            names = [e.id for e in s.targets[0].elts]
+            val = s.value
+            if isinstance(val, ast.Tuple) and len(val.elts) == len(names) \
+                    and not ({n.id for n in ast.walk(val) if isinstance(n, ast.Name)} & set(names)):
+                # `a, b, c = e1, e2, e3` (no target read on the right): three assignments
+                asg = []
+                for n, e in zip(names, val.elts):
+                    x = ast.Assign(targets=[ast.Name(id=n, ctx=ast.Store())], value=e)
+                    ast.copy_location(x, s); ast.fix_missing_locations(x)
+                    asg.append(x)
+                return self.S(asg + list(rest), env, k, ind)
+            if isinstance(val, ast.Call) and isinstance(val.func, ast.Attribute) and val.func.attr == 'transpose' \
+                    and len(val.args) == 1 and not val.keywords and ast.unparse(val.args[0]).replace(' ', '') == '(2,0,1)' \
+                    and len(names) == 3 and 'unpack:transpose201' in self.fam.prims:
+                # `x, y, z = a.transpose((2, 0, 1))`: the three channel planes of an (h, w, 3) array
+                p = self.fam.prims['unpack:transpose201']
+                a_, _ = self.E(val.func.value, env, p.args[0])
+                env2, lines = dict(env), []
+                for i, n in enumerate(names):
+                    lines.append(pad + f'let {lname(n)} := P.{p.field} {a_} {i}')
+                    env2[n] = p.ret
+                return lines + self.S(rest, env2, k, ind)
+            if isinstance(val, ast.Call) and dotted(val.func) in self.fam.prims and self.fam.prims[dotted(val.func)].raises \
+                    and len(names) == 2 and self.fam.prims[dotted(val.func)].ret == 'shape_pos' and self.raises \
+                    and not getattr(self, '_inloop', 0):
+                # `a, b = callee(..)` of a callee that may raise: `match … with | none => none | some r => …`
+                p = self.fam.prims[dotted(val.func)]
+                self._allow_raising = True
+                try:
+                    txt, _ = self._E(val, env)
+                finally:
+                    self._allow_raising = False
+                r = self.fresh('r')
+                env2 = dict(env)
+                env2[names[0]], env2[names[1]] = 'intlist', 'slicelist'
+                return [pad + f'match {txt} with', pad + '| none => none', pad + f'| some {r} =>',
+                        pad + f'  let {lname(names[0])} := {r}.1', pad + f'  let {lname(names[1])} := {r}.2'] \
+                    + self.S(rest, env2, k, ind + 1)
+            if isinstance(val, ast.Attribute) and val.attr == 'shape' and len(names) == 2 and 'shape2' in self.fam.prims:
+                # `r, c = img.shape` of a 2-D array
+                p = self.fam.prims['shape2']
+                a_, _ = self.E(val.value, env, p.args[0])
+                env2 = dict(env)
+                env2[names[0]] = env2[names[1]] = 'nat'
+                return [pad + f'let {lname(names[0])} := P.{p.field}_rows {a_}', pad + f'let {lname(names[1])} := P.{p.field}_cols {a_}'] \
+                    + self.S(rest, env2, k, ind)
+            if isinstance(val, ast.Call) and dotted(val.func) == 'np.meshgrid' and len(val.args) == 2 and not val.keywords \
+                    and len(names) == 2 and 'np.meshgrid' in self.fam.prims:
+                # `X, Y = np.meshgrid(x, y)`: X[i, j] = x[j], Y[i, j] = y[i] (numpy's default 'xy' indexing)
+                p = self.fam.prims['np.meshgrid']
+                a_, _ = self.E(val.args[0], env, p.args[0])
+                b_, _ = self.E(val.args[1], env, p.args[1])
+                env2 = dict(env)
+                env2[names[0]] = env2[names[1]] = p.ret
+                t1, t2 = self.fresh('mg'), self.fresh('mg')
+                return [pad + f'let {t1} := P.{p.field}_x {a_} {b_}', pad + f'let {t2} := P.{p.field}_y {a_} {b_}',
+                        pad + f'let {lname(names[0])} := {t1}', pad + f'let {lname(names[1])} := {t2}'] \
+                    + self.S(rest, env2, k, ind)
+            if isinstance(val, ast.Call) and dotted(val.func) in self.fam.prims and self.fam.prims[dotted(val.func)].ret == 'nat4' \
+                    and len(names) == 4:
+                # `a, b, c, d = callee(..)` of a callee returning four naturals
+                txt, _ = self._E(val, env)
+                r = self.fresh('q')
+                env2 = dict(env)
+                lines = [pad + f'let {r} := {txt}']
+                for n, prj in zip(names, ('.1', '.2.1', '.2.2.1', '.2.2.2')):
+                    lines.append(pad + f'let {lname(n)} := {r}{prj}')
+                    env2[n] = 'nat'
+                return lines + self.S(rest, env2, k, ind)
+            raise self.err(s, 'tuple assignment outside the subset')
         if isinstance(s, (ast.Assign, ast.AugAssign)):
             if isinstance(s, ast.Assign):
                 if len(s.targets) != 1:
@@ -651,6 +1132,14 @@ class Tr:
                 env2 = dict(env)
                 env2[tgt.value.id] = p.ret
                 return [pad + f'let {lname(tgt.value.id)} := P.{p.field} {a} {v}'] + self.S(rest, env2, k, ind)
+            if isinstance(tgt, ast.Subscript) and isinstance(tgt.value, ast.Name) and 'setwin' in self.fam.prims \
+                    and self._window(tgt.slice, env) is not None:
+                # `a[y0:y1, x0:x1] = b`: the window of a is overwritten with b
+                p = self.fam.prims['setwin']
+                a, _ = self.E(tgt.value, env, p.args[0])
+                v, _ = self.E(val, env, p.args[-1])
+                return [pad + f'let {lname(tgt.value.id)} := ' + ' '.join([f'P.{p.field}', a] + self._window(tgt.slice, env) + [v])] \
+                    + self.S(rest, env, k, ind)
             if isinstance(tgt, ast.Subscript) and isinstance(tgt.value, ast.Name) and 'setitem' in self.fam.prims:
                 p = self.fam.prims['setitem']
                 a, _ = self.E(tgt.value, env, p.args[0])
@@ -663,10 +1152,17 @@ class Tr:
             if tgt.id in self.drop:
                 # destination-buffer plumbing: `out = _get_output(...)`, `if out is None: out = output`
                 if isinstance(val, ast.Call) and (dotted(val.func) or '').split('.')[-1] == '_get_output':
+                    self.note('destination-buffer', s)
                     return self.S(rest, env, k, ind)
                 if isinstance(val, ast.Name) and val.id in self.drop:
+                    self.note('destination-buffer', s)
                     return self.S(rest, env, k, ind)
                 raise self.err(s, 'assignment to a destination-buffer name that is not `_get_output(...)`')
+            if isinstance(val, ast.List) and not val.elts and tgt.id in self.t.localsorts:
+                so = self.t.localsorts[tgt.id]
+                env2 = dict(env)
+                env2[tgt.id] = so
+                return [pad + f'let {lname(tgt.id)} := ([] : {LEAN_TYPE[so]})'] + self.S(rest, env2, k, ind)
             txt, sort = self.E(val, env, env.get(tgt.id) if env.get(tgt.id) in ('K', 'vec') else None)
             if sort == 'natlit':
                 sort = 'nat'
@@ -675,10 +1171,18 @@ class Tr:
             env2[tgt.id] = sort
             return [pad + f'let {lname(tgt.id)} := {txt}'] + self.S(rest, env2, k, ind)
         if isinstance(s, ast.If):
+            # `if <dtype test>: x = x.astype(np.float64)`: a conversion to double of an array whose values are scalars of the
+            # family already - the identity at value level, whatever the test says
+            if not s.orelse and len(s.body) == 1 and isinstance(s.body[0], ast.Assign) and len(s.body[0].targets) == 1 \
+                    and isinstance(s.body[0].targets[0], ast.Name) and env.get(s.body[0].targets[0].id) in ('mat', 'fld', 'vec') \
+                    and ast.unparse(s.body[0].value).replace(' ', '') == f'{s.body[0].targets[0].id}.astype(np.float64)':
+                self.note('identity-cast', s)
+                return self.S(rest, env, k, ind)
             # `if out is None: out = output` and other pure plumbing tests
             if self._plumbing_test(s.test):
                 if self.assigned(s.body + s.orelse) and all(n in self.drop for n in self.assigned(s.body + s.orelse)) \
                         and not self.exits(s.body + s.orelse):
+                    self.note('destination-buffer', s)
                     return self.S(rest, env, k, ind)
                 raise self.err(s, 'test of a destination-buffer name guarding value-level code')
             # `if np.may_share_memory(a, out): a = a.copy()`: an aliasing guard around destination buffers - no value-level
@@ -690,6 +1194,7 @@ class Tr:
                             and st.value.func.attr in IDENTITY_METHODS and not st.value.args and not st.value.keywords
                             and isinstance(st.value.func.value, ast.Name) and st.value.func.value.id == st.targets[0].id)
                 if all(noop(st) for st in list(s.body) + list(s.orelse)):
+                    self.note('aliasing-guard', s)
                     return self.S(rest, env, k, ind)
                 raise self.err(s, 'aliasing test guarding value-level code')
             # `if x is None:` on an optional parameter: a `match` that rebinds x as a scalar where it is not None
@@ -698,7 +1203,7 @@ class Tr:
                 x, positive = nt
                 env_none, env_some = dict(env), dict(env)
                 env_none.pop(x)
-                env_some[x] = {'optK': 'K', 'optD': 'dtype'}[env[x]]
+                env_some[x] = {'optK': 'K', 'optD': 'dtype', 'optint': 'int', 'optpair': 'pair'}[env[x]]
                 b_then, b_else = (env_none, env_some) if positive else (env_some, env_none)
                 h_none, h_some = f'| none =>', f'| some {lname(x)} =>'
                 heads = (f'(match {lname(x)} with', h_none if positive else h_some, h_some if positive else h_none, ')')
@@ -775,7 +1280,7 @@ class Tr:
     def _none_test(self, test, env):
         """`x is None` / `x is not None` on an optional scalar -> (x, is_positive)"""
         if isinstance(test, ast.Compare) and len(test.ops) == 1 and isinstance(test.ops[0], (ast.Is, ast.IsNot)) \
-                and isinstance(test.left, ast.Name) and env.get(test.left.id) in ('optK', 'optD') \
+                and isinstance(test.left, ast.Name) and env.get(test.left.id) in ('optK', 'optD', 'optint', 'optpair') \
                 and isinstance(test.comparators[0], ast.Constant) and test.comparators[0].value is None:
             return test.left.id, isinstance(test.ops[0], ast.Is)
         return None
@@ -784,7 +1289,7 @@ class Tr:
         names = [n.id for n in ast.walk(test) if isinstance(n, ast.Name)]
         return bool(names) and all(n in self.drop for n in names)
 
-    def _loop_exit(self, env, ind, brk):
+    def _loop_exit(self, env, ind, brk, ret=None):
         lp = self._loops[-1]
         for n in lp['state']:
             if env.get(n) != lp['sorts'][n]:
@@ -792,16 +1297,30 @@ class Tr:
         tup = [lname(n) for n in lp['state']]
         if lp['brk']:
             tup = ['true' if brk else 'false'] + tup
+        if lp.get('ret'):
+            tup = [f'(some {ret})' if ret is not None else 'none'] + tup
         return ['  ' * ind + (tup[0] if len(tup) == 1 else '(' + ', '.join(tup) + ')')]
 
     def for_loop(self, s, rest, env, k, ind):
         pad = '  ' * ind
         if s.orelse:
             raise self.err(s, 'for/else')
-        if not isinstance(s.target, ast.Name):
-            raise self.err(s, 'loop target outside the subset')
         it = s.iter
-        if isinstance(it, ast.Call) and dotted(it.func) == 'range' and not it.keywords and 1 <= len(it.args) <= 2:
+        unpack = []                                     # `for a, b in zip(xs, ys)`: the element is a pair
+        if isinstance(s.target, ast.Tuple) and len(s.target.elts) == 2 and all(isinstance(e, ast.Name) for e in s.target.elts) \
+                and isinstance(it, ast.Call) and dotted(it.func) == 'zip' and len(it.args) == 2 and not it.keywords:
+            xs, sx = self._E(it.args[0], env)
+            ys, sy = self._E(it.args[1], env)
+            if sx not in LIST_ELEM or sy not in LIST_ELEM:
+                raise self.err(s, f'zip over sorts {sx},{sy}')
+            seq = f'(List.zip {xs} {ys})'
+            lvar = self.fresh('zz')
+            vty = f'{LEAN_TYPE[LIST_ELEM[sx]]} × {LEAN_TYPE[LIST_ELEM[sy]]}'
+            unpack = [(s.target.elts[0].id, LIST_ELEM[sx], f'{lvar}.1'), (s.target.elts[1].id, LIST_ELEM[sy], f'{lvar}.2')]
+            targets = {u[0] for u in unpack}
+        elif not isinstance(s.target, ast.Name):
+            raise self.err(s, 'loop target outside the subset')
+        elif isinstance(it, ast.Call) and dotted(it.func) == 'range' and not it.keywords and 1 <= len(it.args) <= 2:
             if len(it.args) == 1:
                 n, _ = self.E(it.args[0], env, 'nat')
                 seq = f"(List.range' 0 {n})"
@@ -809,41 +1328,65 @@ class Tr:
                 a, _ = self.E(it.args[0], env, 'nat')
                 b, _ = self.E(it.args[1], env, 'nat')
                 seq = f"(List.range' {a} ({b} - {a}))"
-            vsort = 'nat'
+            lvar, vty, targets = lname(s.target.id), 'Nat', {s.target.id}
+            unpack = [(s.target.id, 'nat', None)]
         else:
             sq, ss = self._E(it, env)
             if ss != 'vec':
                 raise self.err(s, f'iteration over sort {ss}')
-            seq, vsort = sq, 'K'
+            seq = sq
+            lvar, vty, targets = lname(s.target.id), 'K', {s.target.id}
+            unpack = [(s.target.id, 'K', None)]
         body_assigned = [n for n in self.assigned(s.body) if n not in self.drop]
-        state = sorted(n for n in body_assigned if n in env and n != s.target.id)
+        state = sorted(n for n in body_assigned if n in env and n not in targets)
         brk = any(isinstance(n, ast.Break) for n in ast.walk(s))
-        if not state:
+
+        def direct_returns(ss):                         # `return` in this loop's body, not inside a nested loop / def
+            for st in ss:
+                if isinstance(st, ast.Return):
+                    return True
+                if isinstance(st, ast.If) and (direct_returns(st.body) or direct_returns(st.orelse)):
+                    return True
+            return False
+        ret = direct_returns(s.body)                    # a search loop: the state carries `Option <result>`, the first hit wins
+        if ret and (getattr(self, '_inloop', 0) or getattr(self, '_ret', None)):
+            raise self.err(s, '`return` inside a nested loop / nested def')
+        if not state and not ret:
             raise self.err(s, 'loop without effect on variables defined before it')
-        lp = dict(state=state, sorts={n: env[n] for n in state}, brk=brk)
+        lp = dict(state=state, sorts={n: env[n] for n in state}, brk=brk, ret=ret)
         self._loops = getattr(self, '_loops', []) + [lp]
         self._inloop = getattr(self, '_inloop', 0) + 1
         v = self.fresh('st')
-        nst = len(state) + (1 if brk else 0)
-        tys = (['Bool'] if brk else []) + [LEAN_TYPE[env[n]] for n in state]
-        lines = [pad + f'let {v} := List.foldl (fun ({v} : {" × ".join(tys)}) ({lname(s.target.id)} : {LEAN_TYPE[vsort]}) =>']
+        lead = (1 if ret else 0) + (1 if brk else 0)
+        nst = len(state) + lead
+        tys = ([f'Option ({LEAN_TYPE[self.t.ret]})'] if ret else []) + (['Bool'] if brk else []) + [LEAN_TYPE[env[n]] for n in state]
+        lines = [pad + f'let {v} := List.foldl (fun ({v} : {" × ".join(tys)}) ({lvar} : {vty}) =>']
         inner = ind + 2
         ipad = '  ' * inner
+        if ret:
+            lines.append(ipad + f'if ({self.proj(v, 0, nst)}).isSome then {v} else')
         if brk:
-            lines.append(ipad + f'if {self.proj(v, 0, nst)} then {v} else')
+            lines.append(ipad + f'if {self.proj(v, 1 if ret else 0, nst)} then {v} else')
         for i, n in enumerate(state):
-            lines.append(ipad + f'let {lname(n)} := {self.proj(v, i + (1 if brk else 0), nst)}')
+            lines.append(ipad + f'let {lname(n)} := {self.proj(v, i + lead, nst)}')
         env_in = dict(env)
-        env_in[s.target.id] = vsort
+        for n, so, prj in unpack:
+            env_in[n] = so
+            if prj is not None:
+                lines.append(ipad + f'let {lname(n)} := {prj}')
         lines += self.S(list(s.body), env_in, lambda e, i: self._loop_exit(e, i, False), inner)
-        init = (['false'] if brk else []) + [lname(n) for n in state]
+        init = (['none'] if ret else []) + (['false'] if brk else []) + [lname(n) for n in state]
         lines.append(ipad[:-2] + ') ' + (init[0] if len(init) == 1 else '(' + ', '.join(init) + ')') + ' ' + seq)
         self._loops = self._loops[:-1]
         self._inloop -= 1
-        for i, n in enumerate(state):
-            lines.append(pad + f'let {lname(n)} := {self.proj(v, i + (1 if brk else 0), nst)}')
         env2 = {n: t for n, t in env.items()}           # loop-local variables do not survive (refused if read later)
-        return lines + self.S(rest, env2, k, ind)
+        after = [f'let {lname(n)} := {self.proj(v, i + lead, nst)}' for i, n in enumerate(state)]
+        if ret:
+            r = self.fresh('r')
+            lines += [pad + f'match {self.proj(v, 0, nst)} with', pad + f'| some {r} => ' + (f'some {r}' if self.raises else r),
+                      pad + '| none =>']
+            return lines + ['  ' * (ind + 1) + a for a in after] + self.S(rest, env2, k, ind + 1)
+        return lines + [pad + a for a in after] + self.S(rest, env2, k, ind)
 
     def while_loop(self, s, rest, env, k, ind):
         pad = '  ' * ind
@@ -881,6 +1424,61 @@ class Tr:
         lines += [pad + u for u in unpack]
         return lines + self.S(rest, dict(env), k, ind)
 
+    def _slice(self, stmts):
+        """the reviewed slice of a body (Target.assume_none / Target.result_var): tests of the parameters assumed None are
+        resolved, the deprecated-alias block `if out is None and output is not None: …` (output a dropped parameter) is
+        removed, and the statement list ends with `return <result_var>` right after the first assignment of that local"""
+        t = self.t
+
+        def is_none_test(test):
+            if isinstance(test, ast.Compare) and len(test.ops) == 1 and isinstance(test.left, ast.Name) \
+                    and isinstance(test.comparators[0], ast.Constant) and test.comparators[0].value is None:
+                if test.left.id in t.assume_none and isinstance(test.ops[0], ast.Is):
+                    return True
+                if test.left.id in t.assume_none and isinstance(test.ops[0], ast.IsNot):
+                    return False
+                if test.left.id in self.drop and isinstance(test.ops[0], ast.IsNot):
+                    return False                        # a dropped (deprecated alias) parameter is never given
+                if test.left.id in self.drop and isinstance(test.ops[0], ast.Is):
+                    return True
+            if isinstance(test, ast.BoolOp) and isinstance(test.op, ast.And):
+                vs = [is_none_test(v) for v in test.values]
+                if any(v is False for v in vs):
+                    return False
+                if all(v is True for v in vs):
+                    return True
+            return None
+
+        def walk(ss):
+            out = []
+            for st in ss:
+                if isinstance(st, ast.If):
+                    v = is_none_test(st.test)
+                    if v is True:
+                        self.note('slice-assumes-None', st.test)
+                        sub, done = walk(st.body)
+                    elif v is False:
+                        self.note('slice-assumes-None', st.test)
+                        sub, done = walk(st.orelse)
+                    else:
+                        sub, done = [st], False
+                    out += sub
+                    if done:
+                        return out, True
+                    continue
+                out.append(st)
+                if t.result_var and isinstance(st, ast.Assign) and len(st.targets) == 1 \
+                        and isinstance(st.targets[0], ast.Name) and st.targets[0].id == t.result_var:
+                    r = ast.Return(value=ast.Name(id=t.result_var, ctx=ast.Load()))
+                    ast.copy_location(r, st); ast.fix_missing_locations(r)
+                    out.append(r)
+                    return out, True
+            return out, False
+        res, done = walk(stmts)
+        if t.result_var and not done:
+            raise TranslationError(f'{t.module}:{t.name}: the sliced local {t.result_var} is not assigned on the reviewed path')
+        return res
+
     # ---- definition ------------------------------------------------------------------------------
     def definition(self):
         t, f = self.t, self.f
@@ -892,15 +1490,19 @@ class Tr:
         if have != want:
             raise TranslationError(f'{t.module}:{t.name}: parameters {have} differ from the reviewed signature {want}')
         env = {p: s for p, s in t.params}
+        stmts = list(f.body)
+        if t.assume_none or t.result_var:
+            stmts = self._slice(stmts)
         try:
-            body = self.S(list(f.body), env, None, 1)
+            body = self.S(stmts, env, None, 1)
         except SortChange as sc:
             raise TranslationError(f'{t.module}:{t.name}: variable {sc} changes sort outside a loop')
         ret = LEAN_TYPE[t.ret]
         if self.raises:
             ret = f'Option ({ret})'
         binders = ' '.join(f'({lname(p)} : {LEAN_TYPE[s]})' for p, s in t.params)
-        head = [f'/-- `mahotas/{t.module}: {t.name}({", ".join(argnames)})`, body translated from the current source -/',
+        notes = [f'-- dropped [{kind}] {t.module[:-3]}.{t.name}: {src}' for kind, src in self.notes]
+        head = notes + [f'/-- `mahotas/{t.module}: {t.name}({", ".join(argnames)})`, body translated from the current source -/',
                 f'def {t.lean} {t.family.binders} {t.family.extra_params}(P : {t.family.struct} {' '.join(t.family.tparams)}) {binders} : {ret} :=']
         return head + body
 
@@ -999,6 +1601,170 @@ COLORS = Family(
         '.astype()': Prim('astype', ['fld', 'dtype'], 'fld', drop_kw={'copy'}),
     }, extra_params=EMBED, prop='C20')
 
+COLORS2 = Family(
+    'colors2', ['K', 'X', 'A', 'D'],
+    '[Add K] [Sub K] [Mul K] [Div K] [Neg K] [LT K] [DecidableLT K] [LE K] [DecidableLE K]', 'Color2Prims',
+    {
+        'np.power': Prim('pow', ['K', 'K'], 'K', elementwise=True),
+        '_convert': Prim('convert', ['fld', 'mat', 'optD'], 'fld', kw={'dtype': 2}, drop_kw={'funcname'},
+                         doc='as in the `colors` family; positions are (pixel, channel)'),
+        '.astype():fld': Prim('astype', ['fld', 'dtype'], 'fld', drop_kw={'copy'}),
+        '.astype():arr': Prim('astype3', ['arr', 'dtype'], 'arr', drop_kw={'copy'}),
+        'const:np.float32': Prim('float32', [], 'dtype'),
+        'const:np.uint8': Prim('uint8', [], 'dtype'),
+        'np.dot': Prim('dot3', ['arr', 'vec'], 'fld', doc='`np.dot(array, w)` of an (h, w, 3) array and a 3-vector: one value per pixel'),
+        'unpack:transpose201': Prim('channel', ['arr', 'nat'], 'fld', doc='`x, y, z = a.transpose((2, 0, 1))`: plane `i` of an (h, w, 3) array'),
+        'np.dstack3': Prim('dstack3', ['fld', 'fld', 'fld'], 'arr', doc='`np.dstack([a, b, c])` of three planes'),
+        'rgb2xyz': Prim('rgb2xyz', ['arr'], 'arr', doc='`rgb2xyz(rgb)` with its default dtype (None)'),
+        'xyz2lab': Prim('xyz2lab', ['arr', 'optD'], 'arr', kw={'dtype': 1}, doc='instantiated with the generated `colors_xyz2lab`'),
+    }, extra_params=EMBED, prop='C20')
+
+WAVE = Family(
+    'wavelet center', ['K', 'A', 'D'], '', 'WavePrims',
+    {
+        'np.floor(np.log2)': Prim('floor_log2', ['int'], 'int', doc='`np.floor(np.log2(o))` of one positive side, as an integer'),
+        '_wavelet_center_compute': Prim('center_compute', ['intlist', 'int'], 'shape_pos', raises=True,
+                                        doc='instantiated with the generated `convolve__wavelet_center_compute`'),
+        'np.zeros': Prim('zeros', ['intlist', 'dtype'], 'arr', kw={'dtype': 1}),
+        'arr+K': Prim('add_scalar', ['arr', 'K'], 'arr', doc='`a += v` on an array'),
+        'setitem': Prim('setslice', ['arr', 'slicelist', 'arr'], 'arr', doc='`a[tuple(slices)] = b`'),
+        '[]': Prim('getslice', ['arr', 'slicelist'], 'arr', doc='`a[tuple(slices)]`'),
+        '.shape:arr': Prim('shape', ['arr'], 'intlist'),
+    }, prop='C17')
+
+CIRCLE = Family(
+    'circle_se', ['K', 'X'], '[Add K] [Sub K] [Mul K] [Div K] [Neg K] [LT K] [DecidableLT K] [LE K] [DecidableLE K]', 'CirclePrims',
+    {
+        'np.arange': Prim('arange', ['K', 'K'], 'fld1', doc='`np.arange(a, b)`: entry k is a + k (k < b - a)'),
+        'np.meshgrid': Prim('meshgrid', ['fld1', 'fld1'], 'fld', doc='two fields `meshgrid_x`, `meshgrid_y`: X[i, j] = x[j], Y[i, j] = y[i]'),
+    }, extra_params=EMBED, prop='C16')
+
+LEAN_TYPE['buf'] = 'Bf'
+RESIZE = Family(
+    'resize', ['K', 'A', 'D', 'Bf'], '[Add K] [Sub K] [Mul K] [Div K]', 'ResizePrims',
+    {
+        '.ndim': Prim('ndim', ['arr'], 'nat'),
+        '.dtype': Prim('dtype', ['arr'], 'dtype'),
+        '.shape': Prim('shape', ['arr'], 'natlist'),
+        'np.empty': Prim('empty', ['natlist', 'dtype'], 'buf', kw={'dtype': 1}, doc='a destination array: carries its shape and dtype'),
+        'zoom': Prim('zoom_out', ['arr', 'vec', 'nat', 'buf'], 'arr', kw={'order': 2, 'out': 3},
+                     doc='`interpolate.zoom(array, zoom, order=order, out=out)` with the defaults mode="constant", cval=0.0, prefilter=True'),
+    }, extra_params=EMBED, prop='C18')
+
+LEAN_TYPE.update({'vimg': 'V', 'tbl': 'T', 'kern': 'Kn', 'res': 'R'})
+EULER = Family(
+    'euler', ['A', 'V', 'T', 'Kn', 'R'], '', 'EulerPrims',
+    {
+        'const:_euler_lookup8': Prim('lookup8', [], 'tbl'),
+        'const:_euler_lookup4': Prim('lookup4', [], 'tbl'),
+        'const:_powers': Prim('powers', [], 'kern'),
+        '.dtype is np.bool_': Prim('is_bool', ['arr'], 'bool', doc='`f.dtype is np.bool_`'),
+        'np.all(0|1)': Prim('all_binary', ['arr'], 'bool', doc='`np.all((f == 0) | (f == 1))`'),
+        'arr!=0': Prim('ne0', ['arr'], 'arr', doc='`f != 0`: the boolean image'),
+        'np.pad01': Prim('pad01', ['arr'], 'arr', doc='`np.pad(f, ((0, 1), (0, 1)), mode="constant")`'),
+        '.astype(like)': Prim('astype_like', ['arr', 'kern'], 'arr', doc='`f.astype(_powers.dtype, copy=False)`'),
+        'convolve': Prim('convolve', ['arr', 'kern', 'str'], 'vimg', kw={'mode': 2}),
+        '[].sum()': Prim('lookup_sum', ['tbl', 'vimg'], 'res', doc='`lookup[value].sum()`'),
+    }, prop='C15')
+
+LEAN_TYPE.update({'larr': 'L', 'optint': 'Option Int', 'regs': 'Rg', 'carr': 'C'})
+LABELED = Family(
+    'labeled', ['A', 'L', 'D', 'Bf', 'H', 'Sh', 'B', 'Rg', 'C'], '', 'LabeledPrims',
+    {
+        '_as_labeled': Prim('as_labeled', ['arr', 'larr'], 'larr', doc='`_as_labeled(array, labeled, funcname)`: the label map as a C int array (raises when the shapes differ: C09/guards)'),
+        '_convert_labeled': Prim('convert_labeled', ['larr'], 'larr'),
+        '.max()': Prim('max_label', ['larr'], 'int'),
+        '.dtype': Prim('dtype', ['arr'], 'dtype'),
+        '.shape': Prim('shape', ['larr'], 'shp'),
+        'shp!=shp': Prim('shape_ne', ['shp', 'shp'], 'bool'),
+        'np.empty': Prim('empty', ['int', 'dtype'], 'buf', kw={'dtype': 1}, doc='an output array of that many slots'),
+        '_labeled.labeled_sum': Prim('k_sum', ['arr', 'larr', 'buf'], 'buf', mutates=2),
+        '_labeled.labeled_max_min': Prim('k_max_min', ['arr', 'larr', 'buf', 'bool'], 'buf', mutates=2),
+        '_labeled.is_same_labeling': Prim('k_same', ['larr', 'larr'], 'bool'),
+        '.astype()': Prim('astype', ['larr', 'dtype'], 'larr', drop_kw={'copy'}),
+        'const:np.uint32': Prim('uint32', [], 'dtype'),
+        'fullhistogram': Prim('fullhistogram', ['larr'], 'hist'),
+        'np.where': Prim('nonzero_idx', ['carr'], 'regs', doc='`idx, = np.where(conditions)`'),
+        'remove_regions': Prim('remove_regions', ['larr', 'regs', 'bool'], 'larr', kw={'inplace': 2}),
+        '_as_labeled:larr': Prim('as_labeled_self', ['larr', 'larr', 'bool'], 'larr', kw={'inplace': 2}, pos=[0, 1, 3],
+                                 doc='`_as_labeled(labeled, labeled, funcname, inplace=inplace)`'),
+        'np.asarray': Prim('as_intc', ['regs'], 'regs', drop_kw={'dtype'}, doc='`np.asarray(regions, dtype=np.intc)`'),
+        'np.unique': Prim('unique', ['regs'], 'regs'),
+        '_labeled.remove_regions': Prim('k_remove', ['larr', 'regs'], 'larr', mutates=0),
+        'larr!=0': Prim('ne0', ['larr'], 'bimg', doc='`bw != 0`'),
+        'bimg&bimg': Prim('and_', ['bimg', 'bimg'], 'bimg', doc='elementwise `&` of two boolean images'),
+        'borders': Prim('borders', ['bimg', 'nat', 'str'], 'bimg', kw={'mode': 2}),
+    }, prop='C13')
+for _fam in (LABELED,):
+    for _k, _p in _fam.prims.items():
+        if _p.mutates is not None:
+            MUTATING[_k] = _p.mutates
+
+LEAN_TYPE['vfld'] = 'X → List K'
+DISK = Family(
+    'disk', ['K', 'X', 'A', 'D'], '[Add K] [Sub K] [Mul K] [LT K] [DecidableLT K] [LE K] [DecidableLE K]', 'DiskPrims',
+    {
+        'const:bool': Prim('bool_dtype', [], 'dtype'),
+        'const:float': Prim('float_dtype', [], 'dtype'),
+        'np.zeros': Prim('zeros', ['natlist', 'dtype'], 'arr'),
+        '_morph.disk_2d': Prim('disk_2d', ['arr', 'nat'], 'bfld', doc='the C++ kernel for two dimensions'),
+        'np.indices': Prim('indices', ['natlist', 'dtype'], 'vfld', doc='`np.indices(shape, float)`: at every position, its coordinate vector'),
+    }, extra_params='(ofNat : Nat → K) ', prop='C01')
+
+LEAN_TYPE['nat4'] = 'Nat × Nat × Nat × Nat'
+THIN = Family(
+    'thin', ['A', 'D'], '', 'ThinPrims',
+    {
+        'const:bool': Prim('bool_dtype', [], 'dtype'),
+        'bbox': Prim('bbox', ['arr'], 'nat4', doc='`bbox(img)` of a 2-D image: (min0, max0, min1, max1)'),
+        'np.zeros_like': Prim('zeros_like', ['arr'], 'arr'),
+        'np.zeros2': Prim('zeros2', ['int', 'int', 'dtype'], 'arr', doc='`np.zeros((h, w), dtype)`'),
+        'np.empty2': Prim('empty2', ['int', 'int', 'dtype'], 'arr', doc='`np.empty((h, w), dtype)`'),
+        'getwin': Prim('getwin', ['arr', 'int', 'int', 'int', 'int'], 'arr', doc='`a[y0:y1, x0:x1]`'),
+        'setwin': Prim('setwin', ['arr', 'int', 'int', 'int', 'int', 'arr'], 'arr', doc='`a[y0:y1, x0:x1] = b`'),
+        '_thin': Prim('thin_kernel', ['arr', 'arr', 'int'], 'arr', mutates=0, doc='`_thin.thin(image, buffer, max_iter)`: thins `image` in place'),
+    }, prop='C15')
+MUTATING['_thin'] = 0
+
+LEAN_TYPE['zarg'] = 'Z'
+ZOOM = Family(
+    'zoom shape', ['K', 'A', 'Z'], '[Add K] [Sub K] [Mul K] [Div K]', 'ZoomPrims',
+    {
+        '_maybe_filter': Prim('maybe_filter', ['arr', 'nat', 'bool'], 'arr', drop_kw={'dtype'}, pos=[0, 1, 3]),
+        'np.array': Prim('as_array', ['zarg'], 'zarg', doc='`np.array(zoom)` of a number or a sequence'),
+        '.ndim:zarg': Prim('zndim', ['zarg'], 'nat'),
+        '.ndim:arr': Prim('ndim', ['arr'], 'nat'),
+        '.shape:arr': Prim('shape', ['arr'], 'natlist'),
+        'np.array([x]*n)': Prim('replicate', ['zarg', 'nat'], 'zarg', doc='`np.array([zoom] * n)` of a 0-d array'),
+        'len:zarg': Prim('zlen', ['zarg'], 'nat'),
+        'elems:zarg': Prim('elems', ['zarg'], 'vec', doc='the entries of a 1-d array, as iterated by `zip`'),
+        'int': Prim('trunc', ['K'], 'int', doc='Python `int(x)` of a float: truncation toward zero'),
+    }, extra_params=EMBED, prop='C18')
+
+LEAN_TYPE['sizearg'] = 'Sz'
+IMRESIZE = Family(
+    'imresize', ['K', 'A', 'Sz', 'Bf', 'D'], '[Add K] [Sub K] [Mul K] [Div K]', 'ImresizePrims',
+    {
+        'type==tuple': Prim('is_tuple', ['sizearg'], 'bool'),
+        'type==list': Prim('is_list', ['sizearg'], 'bool'),
+        'type([0])==int': Prim('first_is_int', ['sizearg'], 'bool', doc='`type(nsize[0]) == int`'),
+        'const:np.float64': Prim('float64', [], 'dtype'),
+        'np.empty': Prim('empty', ['sizearg', 'dtype'], 'buf', kw={'dtype': 1}),
+        'np.array(float):sizearg': Prim('as_floats', ['sizearg'], 'vec', doc='`np.array(nsize, dtype=float)`'),
+        '.shape': Prim('shape', ['arr'], 'natlist'),
+        'zoom(out)': Prim('zoom_out', ['arr', 'vec', 'nat', 'buf'], 'arr', kw={'order': 2, 'out': 3}, raises=True),
+        'zoom': Prim('zoom_factor', ['arr', 'sizearg', 'nat'], 'arr', kw={'order': 2}, raises=True),
+    }, extra_params=EMBED, prop='C18')
+
+LEAN_TYPE.update({'optpair': 'Option (K × K)', 'pair': 'K × K'})
+MOMENTS = Family(
+    'moments', ['K'], '[Add K] [Sub K] [Mul K] [Div K]', 'MomentPrims',
+    {
+        'shape2': Prim('shape', ['mat'], 'nat'),
+        'np.dot:mat,vec': Prim('dot_mv', ['mat', 'vec'], 'vec', doc='`np.dot(img, p)`: one dot product per row'),
+        'np.dot:vec,vec': Prim('dot_vv', ['vec', 'vec'], 'K'),
+    }, extra_params=EMBED, prop='C19')
+
 HISTO = Family(
     'histogram thresholds', ['H', 'G'], '', 'HistPrims',
     {
@@ -1050,8 +1816,41 @@ TARGETS = [
     # positions X = (pixel, channel): the transfer functions act on every channel value, `_convert` mixes the channels of a pixel
     Target('colors.py', 'rgb2xyz', [('rgb', 'fld'), ('dtype', 'optD')], 'fld', COLORS),
     Target('colors.py', 'xyz2rgb', [('xyz', 'fld'), ('dtype', 'optD')], 'fld', COLORS),
+    # A = an (h, w, 3) array, X -> K = one plane of it (positions are pixels); for rgb2sepia positions are (pixel, channel)
+    Target('colors.py', 'rgb2grey', [('array', 'arr'), ('dtype', 'dtype')], 'fld', COLORS2),
+    Target('colors.py', 'xyz2lab', [('xyz', 'arr'), ('dtype', 'optD')], 'arr', COLORS2, locals={'f': (['fld'], 'fld')}),
+    Target('colors.py', 'rgb2lab', [('rgb', 'arr'), ('dtype', 'optD')], 'arr', COLORS2),
+    Target('colors.py', 'rgb2sepia', [('rgb', 'fld')], 'fld', COLORS2),
+    Target('morph.py', 'circle_se', [('radius', 'K')], 'bfld', CIRCLE),
+    Target('labeled.py', 'labeled_sum', [('array', 'arr'), ('labeled', 'larr'), ('minlength', 'optint')], 'buf', LABELED),
+    Target('labeled.py', 'labeled_max', [('array', 'arr'), ('labeled', 'larr')], 'buf', LABELED),
+    Target('labeled.py', 'labeled_min', [('array', 'arr'), ('labeled', 'larr')], 'buf', LABELED),
+    Target('labeled.py', 'labeled_size', [('labeled', 'larr')], 'hist', LABELED),
+    Target('labeled.py', 'remove_regions_where', [('labeled', 'larr'), ('conditions', 'carr'), ('inplace', 'bool')], 'larr', LABELED),
+    Target('labeled.py', 'remove_regions', [('labeled', 'larr'), ('regions', 'regs'), ('inplace', 'bool')], 'larr', LABELED),
+    Target('labeled.py', 'is_same_labeling', [('labeled0', 'larr'), ('labeled1', 'larr')], 'bool', LABELED),
+    Target('labeled.py', 'bwperim', [('bw', 'larr'), ('n', 'nat'), ('mode', 'str')], 'bimg', LABELED),
+    Target('morph.py', 'disk', [('radius', 'nat'), ('dim', 'nat')], 'bfld', DISK,
+           consts={'bool': ('P.bool_dtype', 'dtype'), 'float': ('P.float_dtype', 'dtype')}),
+    Target('thin.py', 'thin', [('binimg', 'arr'), ('max_iter', 'int')], 'arr', THIN, consts={'bool': ('P.bool_dtype', 'dtype')}),
+    Target('features/moments.py', 'moments', [('img', 'mat'), ('p0', 'nat'), ('p1', 'nat'), ('cm', 'optpair'), ('convert_to_float', 'bool'),
+                                              ('normalize', 'bool'), ('normalise', 'bool')], 'K', MOMENTS),
+    Target('resize.py', 'imresize', [('img', 'arr'), ('nsize', 'sizearg'), ('order', 'nat')], 'arr', IMRESIZE, raises=True),
+    # a reviewed SLICE of interpolate.zoom: the path `out is None` (and the deprecated alias `output` not given), up to the
+    # assignment of `output_shape` - the shape arithmetic `int(s * z)` with the scalar-to-vector broadcast and both checks
+    Target('interpolate.py', 'zoom', [('array', 'arr'), ('zoom', 'zarg'), ('order', 'nat'), ('prefilter', 'bool')], 'intlist', ZOOM,
+           lean='interpolate_zoom_output_shape', drop={'mode', 'cval', 'output'}, assume_none={'out'}, result_var='output_shape'),
+    Target('euler.py', 'euler', [('f', 'arr'), ('n', 'nat'), ('mode', 'str')], 'res', EULER,
+           consts={'_euler_lookup8': ('P.lookup8', 'tbl'), '_euler_lookup4': ('P.lookup4', 'tbl'), '_powers': ('P.powers', 'kern')}),
+    # `out` is a LOCAL here (the array that fixes the output shape), not a destination-buffer parameter: it is kept
+    Target('resize.py', 'resize_to', [('im', 'arr'), ('nsize', 'natlist'), ('order', 'nat')], 'arr', RESIZE),
+    # falls off the end after 63 unsuccessful steps: Python returns None and both callers fail on the tuple unpacking
+    Target('convolve.py', '_wavelet_center_compute', [('oshape', 'intlist'), ('border', 'int')], 'shape_pos', WAVE,
+           drop={'dtype', 'cval'}, localsorts={'position': 'slicelist'}, fallthrough_none=True),
+    Target('convolve.py', 'wavelet_center', [('f', 'arr'), ('border', 'int'), ('dtype', 'dtype'), ('cval', 'K')], 'arr', WAVE, raises=True),
+    Target('convolve.py', 'wavelet_decenter', [('w', 'arr'), ('oshape', 'intlist'), ('border', 'int')], 'arr', WAVE, raises=True),
 ]
-FAMILIES = [MORPH, CONV, THRESH, HISTO, LAPL, RC, SOFT, EXTREMA, STRETCH, COLORS]
+FAMILIES = [MORPH, CONV, THRESH, HISTO, LAPL, RC, SOFT, EXTREMA, STRETCH, COLORS, COLORS2, WAVE, CIRCLE, RESIZE, EULER, LABELED, DISK, THIN, ZOOM, IMRESIZE, MOMENTS]
 
 
 def _find_function(tree, name):
@@ -1080,12 +1879,44 @@ def translate_target(repo: Path, t: Target, trees: dict) -> list[str]:
     return Tr(t, f).definition()
 
 
+def _lean_str(x: str) -> str:
+    return '"' + x.replace('\\', '\\\\').replace('"', '\\"') + '"'
+
+
+def _dropped_table(prop: str, lines: list[str]) -> list[str]:
+    """the reviewer's table of everything the bodies of this file contained that the value-level definitions drop
+    (read back from the `-- dropped [...]` comments of the blocks, so that a block kept from the last run keeps its entries)"""
+    rows = []
+    for ln in lines:
+        m = re.match(r'-- dropped \[([\w-]+)\] ([\w\.]+): (.*)$', ln)
+        if m:
+            rows.append('(' + ', '.join(_lean_str(g) for g in (m.group(2), m.group(1), m.group(3))) + ')')
+    out = [f'/-- Reviewer\'s table: every statement of the bodies above that the value-level definitions DROP, as',
+           '    (function, kind, source text). `aliasing-guard`: `if np.may_share_memory(x, out): x = x.copy()` (no value-level',
+           '    meaning: only accepted when all it guards is `x = x.copy()`); `destination-buffer`: `out=` plumbing (C09 owns that',
+           '    convention); `guard-helper`: calls of the reviewed argument checks (translator/guards.py extracts them for C09/C11);',
+           '    `identity-cast`: a dtype conversion that keeps every value; `slice-assumes-None`: a test of an optional parameter',
+           '    resolved by a reviewed slice of the body (Target.assume_none). -/',
+           f'def {prop}.droppedGuards : List (String × String × String) :=']
+    if not rows:
+        return out + ['  []', '']
+    return out + ['  [' + ',\n   '.join(rows) + ']', '']
+
+
 PRELUDE = ['/- GENERATED by translator/pybody.py. Shared prelude of the translated Python bodies (Generated/PyBodies<Cxx>.lean). Do not edit. -/',
            'namespace Mahotas.Generated.Py', '',
            '/-- `while c: body` under a reviewed iteration bound: at most `fuel` iterations (the tie theorems show the bound is not hit) -/',
            'def whileFuel {σ : Type} : Nat → (σ → Bool) → (σ → σ) → σ → σ',
            '  | 0, _, _, s => s',
            '  | n + 1, c, b, s => if c s then whileFuel n c b (b s) else s', '',
+           '/-- `x ** n` for a natural exponent as the repeated product (`one` is the scalar 1) -/',
+           'def pyPowN {K : Type} [Mul K] (one : K) (x : K) : Nat → K',
+           '  | 0 => one',
+           '  | n + 1 => pyPowN one x n * x', '',
+           '/-- `np.min` of a non-empty integer array (numpy raises on an empty one: the reviewed call sites test the length first) -/',
+           'def listMinI : List Int → Int',
+           '  | [] => 0',
+           '  | x :: xs => xs.foldl (fun a b => if b < a then b else a) x', '',
            'end Mahotas.Generated.Py', '']
 
 
@@ -1112,6 +1943,7 @@ def generate(repo: Path, outdir: Path) -> dict:
                     failed[t.key] = f'{type(e).__name__}: {e}'
                 names[t.key] = defined_names('\n'.join(lines))
                 s += [f'-- BEGIN block {t.key}'] + lines + [f'-- END block {t.key}', '']
+        s += _dropped_table(prop, s)
         s += ['end Mahotas.Generated.Py', '']
         changed = _write_if_changed(p, '\n'.join(s)) or changed
     res['pybodies_changed'] = changed
